@@ -19,21 +19,36 @@ _PASS = ("Deref::deref", "DerefMut::deref_mut", "Index::index", "IndexMut::index
 
 
 def skeleton(guard):
-    """a recorded condition reduced to the functions it applies and the outcome it requires: argument names differ
-    between a function and a helper its code was moved into (`del_range.0` vs the parameter `del_range`)"""
+    """a recorded condition reduced to (the function whose outcome is tested, the functions applied inside its arguments, the
+    outcome required): argument names differ between a function and a helper its code was moved into (`del_range.0` vs the
+    parameter `del_range`), and a local is spelled as its definition when it has exactly one"""
     cond, _, allowed = guard.rpartition(" in ")
     if not cond:
         cond, _, allowed = guard.rpartition("==")
     names = re.findall(r"[A-Za-z_][\w:<>]*(?=\()", cond)
     names = [n for n in names if not any(n.endswith(p_) for p_ in _PASS)]
-    return "%s => %s" % (">".join(names), allowed.strip())
+    # `x?` continues exactly when x is Some / Ok: the outcome of a `?` and of an `if let Some(..)` / `match` on the same call agree
+    allowed = allowed.strip().replace("['Continue']", "['+']").replace("['Some']", "['+']").replace("['Ok']", "['+']") \
+        .replace("['Break']", "['-']").replace("['None']", "['-']").replace("['Err']", "['-']")
+    return (names[0] if names else "", frozenset(names[1:]), allowed)
+
+
+def _sk_subsumed(need, have):
+    """every needed condition has a current one with the same tested function and outcome whose arguments apply at least
+    the functions recorded (a current spelling may expand a local into its definition, never the other way round)"""
+    hs = [skeleton(g) for g in have]
+    for g in need:
+        h0, inner, al = skeleton(g)
+        if not any(h0 == x[0] and al == x[2] and inner <= x[1] for x in hs):
+            return False
+    return True
 
 
 def guards_hold(recorded, current):
     """every recorded condition is still among the current ones — literally, or after dropping the spelling of
     arguments (a renamed loop variable changes `Lt(i,len)` into `Lt(idx,len)`)"""
     need, have = set(recorded), set(current)
-    return need <= have or {skeleton(g) for g in need} <= {skeleton(g) for g in have}
+    return need <= have or _sk_subsumed(need, have)
 
 
 class Inventory:
@@ -129,7 +144,7 @@ class Inventory:
                         call_sets.append(set(FL.guard_signature(self.F, cf, cb)))
                 if call_sets:
                     have |= set.intersection(*call_sets)
-                if need <= have or {skeleton(g) for g in need} <= {skeleton(g) for g in have}:
+                if need <= have or _sk_subsumed(need, have):
                     self.used.add(k)
                     return ent, cp
         # the other direction: a helper was inlined into this function. Entries of a function that no longer exists and
@@ -156,7 +171,7 @@ class Inventory:
             if "::".join(owner.split("::")[-2:]) not in old_callees:
                 continue
             need = set(self.table[k].get("guards", []))
-            if need <= set(guards) or {skeleton(g) for g in need} <= {skeleton(g) for g in guards}:
+            if need <= set(guards) or _sk_subsumed(need, set(guards)):
                 self.used.add(k)
                 return self.table[k], owner
         return None, None
